@@ -19,9 +19,9 @@ import (
 func init() {
 	register(&Rule{ID: "R-OPMAP", Floor: 28, Run: ruleOpMap,
 		Text: "Each operator spelling (infix, prefix, postfix, compound assignment) is compiled to the opcode the language definition names for it, and every operator the definition names has a clause."})
-	register(&Rule{ID: "R-OPTABLE", Floor: 50, Run: ruleOpTable,
+	register(&Rule{ID: "R-OPTABLE", Floor: 30, Run: ruleOpTable,
 		Text: "Every cell of the VM's operator tables (int/int, float/float, float/int, int/float, string/string) applies the Go operator its opcode names to (left, right) in that order, produces the result type the language defines (integer only for int/int arithmetic, float for mixed, boolean for comparisons), and sibling tables cover the same opcodes."})
-	register(&Rule{ID: "R-DIVGUARD", Floor: 4, Run: ruleDivGuard,
+	register(&Rule{ID: "R-DIVGUARD", Floor: 2, Run: ruleDivGuard,
 		Text: "In every numeric table the division is preceded by a test of the right operand against zero whose true branch returns a non-nil error."})
 	register(&Rule{ID: "R-EMITLEN", Floor: 60, Run: ruleEmitLen,
 		Text: "Writer and reader agree on operand presence: every emit site passes exactly one operand iff code.Length of that opcode is 3, and a VM handler reads the operand only for such opcodes."})
@@ -82,6 +82,59 @@ func operatorSel(info *types.Info, e ast.Expr) (string, bool) {
 	return n.Obj().Name(), true
 }
 
+// opcodeMapLiteral: e is (an identifier for) a package-level map from operator
+// spelling to opcode written as a composite literal; its entries.
+func opcodeMapLiteral(p *Program, info *types.Info, e ast.Expr) (map[string]string, bool) {
+	id, ok := ast.Unparen(e).(*ast.Ident)
+	if !ok {
+		return nil, false
+	}
+	v, ok := info.Uses[id].(*types.Var)
+	if !ok || v.Pkg() == nil {
+		return nil, false
+	}
+	pk := p.ByPath[v.Pkg().Path()]
+	if pk == nil {
+		return nil, false
+	}
+	for _, f := range pk.Syntax {
+		for _, d := range f.Decls {
+			gd, ok := d.(*ast.GenDecl)
+			if !ok || gd.Tok != token.VAR {
+				continue
+			}
+			for _, sp := range gd.Specs {
+				vs := sp.(*ast.ValueSpec)
+				for i, nm := range vs.Names {
+					if pk.TypesInfo.Defs[nm] != types.Object(v) || i >= len(vs.Values) {
+						continue
+					}
+					cl, ok := vs.Values[i].(*ast.CompositeLit)
+					if !ok {
+						return nil, false
+					}
+					out := map[string]string{}
+					for _, el := range cl.Elts {
+						kv, ok := el.(*ast.KeyValueExpr)
+						if !ok {
+							return nil, false
+						}
+						k, ok1 := constString(pk.TypesInfo, kv.Key)
+						o := opConstName(pk.TypesInfo, kv.Value)
+						if !ok1 || o == "" {
+							return nil, false
+						}
+						out[k] = o
+					}
+					// the table is only ever read
+					return out, true
+				}
+			}
+		}
+	}
+	return nil, false
+}
+
 type opmapCtx map[string]map[string]bool // node type -> allowed operator spellings (nil = unconstrained)
 
 func (c opmapCtx) with(node string, set map[string]bool) opmapCtx {
@@ -120,6 +173,77 @@ func ruleOpMap(p *Program, r *Reporter) {
 			}
 		}
 	}
+	// op, ok := table[node.Operator]: the variable that holds the looked-up
+	// opcode and the variable that says whether the spelling is in the table
+	type lookup struct {
+		node  string
+		table map[string]string
+	}
+	opVar := map[types.Object]lookup{}
+	okVar := map[types.Object]lookup{}
+	bindLookup := func(s ast.Stmt) {
+		as, ok := s.(*ast.AssignStmt)
+		if !ok || len(as.Rhs) != 1 || len(as.Lhs) < 1 || len(as.Lhs) > 2 {
+			return
+		}
+		ix, ok := ast.Unparen(as.Rhs[0]).(*ast.IndexExpr)
+		if !ok {
+			return
+		}
+		node, isOp := operatorSel(info, ix.Index)
+		if !isOp {
+			return
+		}
+		tbl, ok := opcodeMapLiteral(p, info, ix.X)
+		if !ok {
+			return
+		}
+		if id, ok := as.Lhs[0].(*ast.Ident); ok && info.ObjectOf(id) != nil {
+			opVar[info.ObjectOf(id)] = lookup{node, tbl}
+		}
+		if len(as.Lhs) == 2 {
+			if id, ok := as.Lhs[1].(*ast.Ident); ok && info.ObjectOf(id) != nil {
+				okVar[info.ObjectOf(id)] = lookup{node, tbl}
+			}
+		}
+	}
+	// the contexts on the two sides of a test of such an ok variable
+	splitOnOk := func(cond ast.Expr, ctx opmapCtx) (opmapCtx, opmapCtx, bool) {
+		neg := false
+		c := ast.Unparen(cond)
+		if ue, ok := c.(*ast.UnaryExpr); ok && ue.Op == token.NOT {
+			neg, c = true, ast.Unparen(ue.X)
+		}
+		id, ok := c.(*ast.Ident)
+		if !ok {
+			return nil, nil, false
+		}
+		lk, ok := okVar[info.ObjectOf(id)]
+		if !ok {
+			return nil, nil, false
+		}
+		in := map[string]bool{}
+		var rest map[string]bool
+		cur := ctx[lk.node]
+		for k := range lk.table {
+			if cur == nil || cur[k] {
+				in[k] = true
+			}
+		}
+		if cur != nil {
+			rest = map[string]bool{}
+			for k := range cur {
+				if _, isIn := lk.table[k]; !isIn {
+					rest[k] = true
+				}
+			}
+		}
+		yes, no := ctx.with(lk.node, in), ctx.with(lk.node, rest)
+		if neg {
+			yes, no = no, yes
+		}
+		return yes, no, true
+	}
 	var walkStmt func(s ast.Stmt, ctx opmapCtx)
 	walkExpr := func(e ast.Node, ctx opmapCtx) {
 		ast.Inspect(e, func(n ast.Node) bool {
@@ -135,6 +259,19 @@ func ruleOpMap(p *Program, r *Reporter) {
 						constrained = true
 					}
 				}
+				if id, isID := ast.Unparen(ce.Args[0]).(*ast.Ident); isID && op == "" {
+					if lk, ok := opVar[info.ObjectOf(id)]; ok {
+						// the opcode looked up in the table: one pair per spelling
+						// that can reach this point
+						set := ctx[lk.node]
+						for sp, o := range lk.table {
+							if set == nil || set[sp] {
+								record(ctx.with(lk.node, map[string]bool{sp: true}), o, ce.Pos())
+							}
+						}
+						return true
+					}
+				}
 				if op == "" && constrained {
 					r.Undecided("emit with non-constant opcode under an operator condition", p.Pos(ce.Pos()), "the operator→opcode pair cannot be read from this shape")
 				} else if op != "" {
@@ -144,9 +281,24 @@ func ruleOpMap(p *Program, r *Reporter) {
 			return true
 		})
 	}
+	endsInReturn := func(b *ast.BlockStmt) bool {
+		if b == nil || len(b.List) == 0 {
+			return false
+		}
+		_, ok := b.List[len(b.List)-1].(*ast.ReturnStmt)
+		return ok
+	}
 	walkList := func(l []ast.Stmt, ctx opmapCtx) {
 		for _, s := range l {
+			bindLookup(s)
 			walkStmt(s, ctx)
+			// `if !ok { …; return }`: what follows runs only for the spellings
+			// in the table
+			if iff, ok := s.(*ast.IfStmt); ok && iff.Else == nil && endsInReturn(iff.Body) {
+				if _, no, ok := splitOnOk(iff.Cond, ctx); ok {
+					ctx = no
+				}
+			}
 		}
 	}
 	walkStmt = func(s ast.Stmt, ctx opmapCtx) {
@@ -155,9 +307,13 @@ func ruleOpMap(p *Program, r *Reporter) {
 			walkList(s.List, ctx)
 		case *ast.IfStmt:
 			if s.Init != nil {
+				bindLookup(s.Init)
 				walkStmt(s.Init, ctx)
 			}
 			thenCtx, elseCtx := ctx, ctx
+			if yes, no, ok := splitOnOk(s.Cond, ctx); ok {
+				thenCtx, elseCtx = yes, no
+			}
 			if be, ok := ast.Unparen(s.Cond).(*ast.BinaryExpr); ok && (be.Op == token.EQL || be.Op == token.NEQ) {
 				node, isOp := operatorSel(info, be.X)
 				lit, isLit := constString(info, be.Y)
@@ -313,6 +469,10 @@ type tableFn struct {
 	side   map[types.Object]string // derived locals: "L" / "R"
 	sw     *ast.SwitchStmt
 	clause map[string]*ast.CaseClause // opcode name -> clause
+	// valueParams: the table receives the operands' values as extra parameters
+	// (the dispatcher asserts and converts); lType/rType then name the type the
+	// values were converted to
+	valueParams bool
 }
 
 func extractTable(p *Program, fn *ssa.Function) *tableFn {
@@ -325,6 +485,20 @@ func extractTable(p *Program, fn *ssa.Function) *tableFn {
 	t := &tableFn{fn: fn, fd: fd, info: info, side: map[types.Object]string{}, clause: map[string]*ast.CaseClause{}}
 	t.opObj, t.lObj, t.rObj = sig.Params().At(0), sig.Params().At(1), sig.Params().At(2)
 	t.side[t.lObj], t.side[t.rObj] = "L", "R"
+	// the operands' values handed in by the dispatcher, already converted: a
+	// fourth and fifth parameter of one numeric type
+	if sig.Params().Len() == 5 {
+		p3, p4 := sig.Params().At(3), sig.Params().At(4)
+		if b3, ok := p3.Type().Underlying().(*types.Basic); ok && types.Identical(p3.Type(), p4.Type()) {
+			t.side[p3], t.side[p4] = "L", "R"
+			switch {
+			case b3.Info()&types.IsFloat != 0:
+				t.lType, t.rType, t.valueParams = "Float", "Float", true
+			case b3.Info()&types.IsInteger != 0:
+				t.lType, t.rType, t.valueParams = "Integer", "Integer", true
+			}
+		}
+	}
 	// derived locals: top-level assignments whose RHS mentions exactly one side
 	for _, st := range fd.Body.List {
 		as, ok := st.(*ast.AssignStmt)
@@ -470,6 +644,107 @@ func tableName(p *Program, t *tableFn) string {
 	return fmt.Sprintf("%s[%s,%s]", t.fn.Name(), t.lType, t.rType)
 }
 
+// dispatcherPairs: for a table that is handed the operands' values, the operand
+// type pairs for which the dispatcher calls it with (value of left, value of
+// right) in that order — each value being the operand's Value field, asserted
+// to a numeric object type and possibly converted.
+func dispatcherPairs(p *Program, a *anchors, t *tableFn) []string {
+	var out []string
+	type src struct{ side, typ string }
+	scan := func(fd *ast.FuncDecl, info *types.Info, leftObj, rightObj types.Object) {
+		if fd == nil || fd.Body == nil {
+			return
+		}
+		valueOf := func(e ast.Expr) (src, bool) {
+			e = stripConv(info, e)
+			sel, ok := ast.Unparen(e).(*ast.SelectorExpr)
+			if !ok || sel.Sel.Name != "Value" {
+				return src{}, false
+			}
+			ta, ok := ast.Unparen(sel.X).(*ast.TypeAssertExpr)
+			if !ok || ta.Type == nil {
+				return src{}, false
+			}
+			id, ok := ast.Unparen(ta.X).(*ast.Ident)
+			if !ok {
+				return src{}, false
+			}
+			side := ""
+			switch info.ObjectOf(id) {
+			case leftObj:
+				side = "L"
+			case rightObj:
+				side = "R"
+			}
+			return src{side, objectStructName(info.Types[ta.Type].Type)}, side != ""
+		}
+		// one region at a time: a clause of a switch, or the function's own
+		// statement list
+		var regions [][]ast.Stmt
+		ast.Inspect(fd.Body, func(n ast.Node) bool {
+			if cl, ok := n.(*ast.CaseClause); ok {
+				regions = append(regions, cl.Body)
+			}
+			return true
+		})
+		regions = append(regions, fd.Body.List)
+		seenCall := map[*ast.CallExpr]bool{}
+		for _, stmts := range regions {
+			locals := map[types.Object]src{}
+			for _, st := range stmts {
+				if as, ok := st.(*ast.AssignStmt); ok && len(as.Lhs) == 1 && len(as.Rhs) == 1 {
+					if id, ok := as.Lhs[0].(*ast.Ident); ok {
+						if sv, ok := valueOf(as.Rhs[0]); ok {
+							locals[info.ObjectOf(id)] = sv
+						}
+					}
+				}
+				ast.Inspect(st, func(m ast.Node) bool {
+					ce, ok := m.(*ast.CallExpr)
+					if !ok || len(ce.Args) != 5 || seenCall[ce] {
+						return true
+					}
+					f, ok := calleeObj(info, ce).(*types.Func)
+					if !ok || t.fn.Object() != types.Object(f) {
+						return true
+					}
+					seenCall[ce] = true
+					get := func(e ast.Expr) (src, bool) {
+						if id, ok := ast.Unparen(e).(*ast.Ident); ok {
+							sv, ok := locals[info.ObjectOf(id)]
+							return sv, ok
+						}
+						return valueOf(e)
+					}
+					l, ok1 := get(ce.Args[3])
+					rr, ok2 := get(ce.Args[4])
+					if ok1 && ok2 && l.side == "L" && rr.side == "R" {
+						out = append(out, l.typ+"/"+rr.typ)
+					}
+					return true
+				})
+			}
+		}
+	}
+	// called from the dispatcher …
+	if bv := binopView(p, a); bv != nil {
+		scan(bv.fd, bv.info, bv.leftObj, bv.rightObj)
+	}
+	// … or from functions of the operator-table signature that assert and
+	// convert their operands and hand the values on
+	for _, g := range a.optTables {
+		if g == t.fn {
+			continue
+		}
+		sig := g.Signature
+		if sig.Params().Len() < 3 {
+			continue
+		}
+		scan(p.FuncDecl(g), p.Info(g), sig.Params().At(1), sig.Params().At(2))
+	}
+	return out
+}
+
 func ruleOpTable(p *Program, r *Reporter) {
 	a := needAnchors(p, r)
 	if a == nil {
@@ -526,16 +801,27 @@ func ruleOpTable(p *Program, r *Reporter) {
 			r.Info("table "+tableName(p, t), p.Pos(fn.Pos()), "not a numeric or string table (cells computed by calls); not table-checked")
 		}
 	}
-	if len(numeric) != 4 {
-		r.Undecided("numeric tables", "-", fmt.Sprintf("expected the four numeric tables int/int, float/float, float/int, int/float; found %d", len(numeric)))
-	}
+	// the four numeric paths int/int, float/float, float/int, int/float: a table
+	// per path that asserts its operand types itself, or a table that is handed
+	// the converted values by the dispatcher once per path
 	seenPair := map[string]bool{}
+	shared := false
 	for _, t := range numeric {
+		if t.valueParams {
+			shared = true
+			for _, pair := range dispatcherPairs(p, a, t) {
+				seenPair[pair] = true
+			}
+			continue
+		}
 		seenPair[t.lType+"/"+t.rType] = true
 	}
+	if len(numeric) != 4 && !shared {
+		r.Undecided("numeric tables", "-", fmt.Sprintf("expected the four numeric tables int/int, float/float, float/int, int/float; found %d", len(numeric)))
+	}
 	for _, pair := range []string{"Integer/Integer", "Float/Float", "Float/Integer", "Integer/Float"} {
-		if !seenPair[pair] && len(numeric) == 4 {
-			r.Fail("numeric table "+pair, "-", "no operator table asserts this operand-type pair")
+		if !seenPair[pair] && (len(numeric) == 4 || shared) {
+			r.Fail("numeric table "+pair, "-", "no operator table is reached for this operand-type pair with the left operand's value first and the right operand's second")
 		}
 	}
 	check := func(t *tableFn, ops []string) {
@@ -902,7 +1188,36 @@ func lengthTable(p *Program) (three map[string]bool, def int64, ok bool) {
 			if sig.Params().Len() != 1 || !isOpcodeType(sig.Params().At(0).Type()) || sig.Results().Len() != 1 || !isInt(sig.Results().At(0).Type()) {
 				continue
 			}
-			// the Length function: (Opcode) int
+			// the Length function: (Opcode) int — evaluated for every opcode
+			// (and for a byte that is none), whatever form it is written in
+			if fobj, isFn := pk.TypesInfo.Defs[fd.Name].(*types.Func); isFn {
+				if sf := p.SSA.FuncValue(fobj); sf != nil {
+					oc := p.Opcodes()
+					evalOK := len(oc.names) > 0
+					ev := map[string]bool{}
+					for _, n := range oc.names {
+						v, ok := evalPure(sf, constant.MakeInt64(oc.byName[n]), 0)
+						if !ok || v.Kind() != constant.Int {
+							evalOK = false
+							break
+						}
+						switch k, _ := constant.Int64Val(v); k {
+						case 3:
+							ev[n] = true
+						case 1:
+						default:
+							evalOK = false
+						}
+					}
+					if evalOK {
+						if v, ok := evalPure(sf, constant.MakeInt64(255), 0); ok && v.Kind() == constant.Int {
+							if k, _ := constant.Int64Val(v); k == 1 {
+								return ev, 1, true
+							}
+						}
+					}
+				}
+			}
 			for _, st := range fd.Body.List {
 				switch s := st.(type) {
 				case *ast.SwitchStmt:
@@ -957,19 +1272,73 @@ func ruleEmitLen(p *Program, r *Reporter) {
 	}
 	emitObj := a.emit.Object()
 	root := p.ByPath[Mod]
+	// methods that only wrap the emitter: read at their call sites
+	wrapByObj := map[types.Object]*emitWrap{}
+	for _, fn := range p.LibFns {
+		if w := emitWrapperOf(p, a, fn); w != nil && fn.Object() != nil {
+			wrapByObj[fn.Object()] = w
+		}
+	}
 	for _, f := range root.Syntax {
 		var curFn string
+		var curObj types.Object
 		ast.Inspect(f, func(n ast.Node) bool {
 			if fd, ok := n.(*ast.FuncDecl); ok {
 				curFn = fd.Name.Name
+				curObj = root.TypesInfo.Defs[fd.Name]
 			}
 			ce, ok := n.(*ast.CallExpr)
-			if !ok || calleeObj(root.TypesInfo, ce) != emitObj {
+			if !ok {
 				return true
+			}
+			if w := wrapByObj[calleeObj(root.TypesInfo, ce)]; w != nil && !ce.Ellipsis.IsValid() {
+				// a call of a wrapper: the opcode it is given (or its own) with
+				// the operands the wrapper passes
+				op := w.opConst
+				if w.opIdx >= 1 && w.opIdx-1 < len(ce.Args) {
+					op = opConstName(root.TypesInfo, ce.Args[w.opIdx-1])
+				}
+				if op == "" || !w.known {
+					r.Undecided(curFn+" emit of a non-constant opcode", p.Pos(ce.Pos()), "operand presence cannot be compared with the length table")
+					return true
+				}
+				n1 := len(w.operands)
+				key := fmt.Sprintf("%s emit %s operands=%d", curFn, op, n1)
+				if (n1 == 1) == three[op] && n1 <= 1 {
+					r.Ok(key, p.Pos(ce.Pos()), fmt.Sprintf("Length(%s)=%d", op, map[bool]int{true: 3, false: 1}[three[op]]))
+				} else {
+					r.Fail(key, p.Pos(ce.Pos()), fmt.Sprintf("emit writes %d operand(s) for %s but code.Length(%s) is %d: reader and writer disagree on where the next instruction starts", n1, op, op, map[bool]int{true: 3, false: 1}[three[op]]))
+				}
+				return true
+			}
+			if calleeObj(root.TypesInfo, ce) != emitObj {
+				return true
+			}
+			if w := wrapByObj[curObj]; w != nil && w.opIdx >= 0 {
+				return true // the wrapper's own call: judged where the wrapper is called
 			}
 			op := opConstName(root.TypesInfo, ce.Args[0])
 			if op == "" {
-				r.Undecided(curFn+" emit of a non-constant opcode", p.Pos(ce.Pos()), "operand presence cannot be compared with the length table")
+				// an opcode taken from a table of opcodes: every opcode of the
+				// table is written with this call's operand count
+				ops, ok := opcodeVarValues(p, root.TypesInfo, f, ce.Args[0])
+				if !ok || ce.Ellipsis.IsValid() {
+					r.Undecided(curFn+" emit of a non-constant opcode", p.Pos(ce.Pos()), "operand presence cannot be compared with the length table")
+					return true
+				}
+				n1 := len(ce.Args) - 1
+				var bad []string
+				for _, o := range ops {
+					if !((n1 == 1) == three[o] && n1 <= 1) {
+						bad = append(bad, o)
+					}
+				}
+				key := fmt.Sprintf("%s emit of a looked-up opcode operands=%d", curFn, n1)
+				if len(bad) == 0 {
+					r.Ok(key, p.Pos(ce.Pos()), fmt.Sprintf("all %d opcodes the variable can hold have the matching length", len(ops)))
+				} else {
+					r.Fail(key, p.Pos(ce.Pos()), fmt.Sprintf("emit writes %d operand(s) but the variable can hold %s whose code.Length says otherwise: reader and writer disagree on where the next instruction starts", n1, strings.Join(bad, ", ")))
+				}
 				return true
 			}
 			n1 := len(ce.Args) - 1
@@ -1309,6 +1678,33 @@ func ruleJumpSet(p *Program, r *Reporter) {
 		}
 	}
 	if retarget == nil {
+		// the same clause written with guards instead of a switch: the opcodes
+		// under which the old→new offset map is consulted
+		for _, fn := range p.Fns {
+			if fnPkg(fn) == nil || fnPkg(fn).Pkg.Path() != Mod+"/vm" || fn == a.vmRun {
+				continue
+			}
+			for _, b := range fn.Blocks {
+				for _, ins := range b.Instrs {
+					lk, ok := ins.(*ssa.Lookup)
+					if !ok {
+						continue
+					}
+					mt, ok := lk.X.Type().Underlying().(*types.Map)
+					if !ok || !isInt(mt.Key()) || !isInt(mt.Elem()) {
+						continue
+					}
+					sets := opcodeSetsAt(p, fn, b)
+					if len(sets) == 1 {
+						for _, set := range sets {
+							retarget, retPos = set, lk.Pos()
+						}
+					}
+				}
+			}
+		}
+	}
+	if retarget == nil {
 		r.Undecided("NOP-removal retarget set", "-", "cannot find the clause that looks jump operands up in the old→new offset map")
 	} else {
 		r.Check(sameSet(J, retarget), "NOP-removal retargets exactly J", p.Pos(retPos), "retarget set "+setStr(retarget), fmt.Sprintf("the NOP-removal pass rewrites the operands of %s but the VM jumps on %s: a jump not retargeted lands at a stale offset after NOPs are removed", setStr(retarget), setStr(J)))
@@ -1330,4 +1726,85 @@ func ruleJumpSet(p *Program, r *Reporter) {
 		}
 	}
 	r.Check(len(bad) == 0 && len(patched) > 0, "compiler back-patches only J", p.Pos(a.compile.Pos()), "patched opcodes "+setStr(patched), fmt.Sprintf("the compiler back-patches operands of %s, which are not jump opcodes %s", setStr(bad), setStr(J)))
+}
+
+// opcodeVarValues: e is a local variable every assignment of which is either
+// an opcode constant or a look-up in a package-level map literal of opcodes;
+// the opcodes it can hold.
+func opcodeVarValues(p *Program, info *types.Info, f *ast.File, e ast.Expr) ([]string, bool) {
+	id, ok := ast.Unparen(e).(*ast.Ident)
+	if !ok {
+		return nil, false
+	}
+	obj, ok := info.Uses[id].(*types.Var)
+	if !ok || obj.IsField() || obj.Parent() == nil || obj.Parent() == obj.Pkg().Scope() {
+		return nil, false
+	}
+	set := map[string]bool{}
+	good, n := true, 0
+	ast.Inspect(f, func(nd ast.Node) bool {
+		switch s := nd.(type) {
+		case *ast.AssignStmt:
+			for i, l := range s.Lhs {
+				lid, ok := l.(*ast.Ident)
+				if !ok || info.ObjectOf(lid) != types.Object(obj) {
+					continue
+				}
+				n++
+				if len(s.Rhs) == 1 && i == 0 {
+					if ix, ok := ast.Unparen(s.Rhs[0]).(*ast.IndexExpr); ok {
+						if tbl, ok := opcodeMapLiteral(p, info, ix.X); ok {
+							for _, o := range tbl {
+								set[o] = true
+							}
+							continue
+						}
+					}
+				}
+				if len(s.Rhs) == len(s.Lhs) {
+					if o := opConstName(info, s.Rhs[i]); o != "" {
+						set[o] = true
+						continue
+					}
+				}
+				good = false
+			}
+		case *ast.ValueSpec:
+			for i, nm := range s.Names {
+				if info.Defs[nm] != types.Object(obj) {
+					continue
+				}
+				n++
+				if i < len(s.Values) && len(s.Values) == len(s.Names) {
+					if o := opConstName(info, s.Values[i]); o != "" {
+						set[o] = true
+						continue
+					}
+				}
+				good = false
+			}
+		case *ast.UnaryExpr:
+			if s.Op == token.AND {
+				if lid, ok := ast.Unparen(s.X).(*ast.Ident); ok && info.ObjectOf(lid) == types.Object(obj) {
+					good = false
+				}
+			}
+		case *ast.RangeStmt:
+			for _, l := range []ast.Expr{s.Key, s.Value} {
+				if lid, ok := l.(*ast.Ident); ok && info.ObjectOf(lid) == types.Object(obj) {
+					good = false
+				}
+			}
+		}
+		return true
+	})
+	if !good || n == 0 || len(set) == 0 {
+		return nil, false
+	}
+	var out []string
+	for o := range set {
+		out = append(out, o)
+	}
+	sort.Strings(out)
+	return out, true
 }
